@@ -8,6 +8,7 @@ import (
 	iofs "io/fs"
 	"os"
 	"path/filepath"
+	"sync"
 	"syscall"
 	"testing"
 
@@ -342,6 +343,58 @@ func TestC16(t *testing.T) {
 			b := mk(c)
 			checkBuild(c, b)
 			c.Sample(map[string]any{"build": b.Name, "kind": b.Kind})
+		})
+	}
+	// several builds at the same time, each into its own store: every returned DAG has to be complete
+	// in the store of the build that returned it
+	for i := 0; i < r.Pick(4, 30); i++ {
+		i := i
+		r.Case(fmt.Sprintf("concurrent-separate-stores/%d", i), map[string]any{"goroutines": 10, "round": i}, func(c *mon.Case) {
+			rr := c.Rand()
+			const G = 10
+			contents := make([][]byte, G)
+			for g := range contents {
+				contents[g] = gen.Content(rr, "rand", 100+rr.Intn(2000))
+			}
+			old := builder.DefaultLinksPerBlock
+			builder.DefaultLinksPerBlock = 3
+			defer func() { builder.DefaultLinksPerBlock = old }()
+			for rep := 0; rep < 10; rep++ {
+				stores := make([]*store.Store, G)
+				links := make([]ipld.Link, G)
+				errs := make([]error, G)
+				var wg sync.WaitGroup
+				start := make(chan struct{})
+				for g := 0; g < G; g++ {
+					stores[g] = store.New()
+					wg.Add(1)
+					go func(g int) {
+						defer wg.Done()
+						defer func() {
+							if p := recover(); p != nil {
+								errs[g] = fmt.Errorf("panic: %v", p)
+							}
+						}()
+						<-start
+						links[g], _, errs[g] = builder.BuildUnixFSFile(bytes.NewReader(contents[g]), "size-11", stores[g].LinkSystem(false))
+					}(g)
+				}
+				close(start)
+				wg.Wait()
+				c.Count("builds", G)
+				c.Count("concurrent_builds_into_separate_stores", G)
+				for g := 0; g < G; g++ {
+					if errs[g] != nil || links[g] == nil {
+						c.Violation("C16|build-error", "one of %d concurrent builds into separate stores failed: %v", G, errs[g])
+						return
+					}
+					if _, werr := walkerFor(stores[g]).TreeSize(linkCid(links[g])); werr != nil {
+						c.Violation("C16|returned-link-incomplete", "one of %d concurrent builds (each into its own store) returned %s, but its own store does not hold the whole DAG: %v", G, links[g], werr)
+						return
+					}
+				}
+			}
+			c.Sig("concurrent-separate-stores", true)
 		})
 	}
 	// one link system VALUE whose write storage is replaced between two builds: the second build's
